@@ -57,3 +57,38 @@ Proof. intros H. destruct o; cbn;
 
 Lemma fold_keeps_extra ops : forall s x k v, extra_lookup x k (s_extra s) = Some v -> extra_lookup x k (s_extra (fold_left apply ops s)) = Some v.
 Proof. induction ops as [|o t IH]; intros s x k v H; cbn; [exact H|]. apply IH. now apply apply_keeps_extra. Qed.
+
+(* ---- title and status: the last change wins, creation otherwise ---- *)
+Definition title_step (t : N) (o : op) : N := match o with OSetTitle _ _ x => x | _ => t end.
+Definition status_step (st : N) (o : op) : N := match o with OSetStatus _ _ x => x | _ => st end.
+Definition not_recreate (i : opid) (o : op) : Prop := match o with OCreate j _ _ _ _ => id_eqb i j = false | _ => True end.
+
+Lemma apply_title_status s i o : s_id s = Some i -> not_recreate i o ->
+  s_id (apply s o) = Some i /\ s_title (apply s o) = title_step (s_title s) o /\ s_status (apply s o) = status_step (s_status s) o.
+Proof. intros Hi Hn. destruct o; unfold apply; cbn [title_step status_step not_recreate] in *.
+  - (* create with another id: ignored *) rewrite Hi, Hn. cbn. auto.
+  - cbn. auto.
+  - destruct (negb (existsb _ (s_comments s))); cbn; [auto|].
+    destruct (timeline_target (s_timeline s) target) as [[?|?]|]; cbn; auto.
+  - cbn. auto.
+  - cbn. auto.
+  - cbn. auto.
+  - cbn. auto.
+  - cbn. auto. Qed.
+
+Lemma fold_title_status rest : forall s i, s_id s = Some i -> (forall o, In o rest -> not_recreate i o) ->
+  s_title (fold_left apply rest s) = fold_left title_step rest (s_title s) /\
+  s_status (fold_left apply rest s) = fold_left status_step rest (s_status s).
+Proof. induction rest as [|o t IH]; intros s i Hi Hn; cbn [fold_left]; [auto|].
+  destruct (apply_title_status s i o Hi (Hn o (or_introl eq_refl))) as (Hi' & Ht & Hs).
+  destruct (IH (apply s o) i Hi' (fun x Hx => Hn x (or_intror Hx))) as [A B]. rewrite A, B, Ht, Hs. auto. Qed.
+
+Theorem compile_title_status i au title msg files rest : (forall o, In o rest -> not_recreate i o) ->
+  let s := compile (OCreate i au title msg files :: rest) in
+  s_title s = fold_left title_step rest title /\ s_status s = fold_left status_step rest 1.
+Proof. intros Hn. unfold compile. cbn [fold_left seed hd_error option_map op_id].
+  set (s1 := apply _ (OCreate i au title msg files)).
+  assert (H1 : s_id s1 = Some i /\ s_title s1 = title /\ s_status s1 = 1).
+  { unfold s1. cbn. unfold id_eqb. rewrite N.eqb_refl. cbn. auto. }
+  destruct H1 as (Hi & Ht & Hs). destruct (fold_title_status rest s1 i Hi Hn) as [A B].
+  rewrite A, B, Ht, Hs. auto. Qed.
